@@ -45,6 +45,24 @@ func runC16(c *Ctx) {
 		}
 	}
 
+	// the response is being held back whole (responseWriter.buf != nil): the per-message flush
+	// is a no-op there by design, whether the test sits in the flush helper or at its call sites
+	rwBufF := p.MustField("responseWriter", "buf")
+	bufferingEdge := func(from *ssa.BasicBlock, succ int) bool {
+		if len(from.Instrs) == 0 {
+			return false
+		}
+		iff, ok := from.Instrs[len(from.Instrs)-1].(*ssa.If)
+		if !ok {
+			return false
+		}
+		b, ok := iff.Cond.(*ssa.BinOp)
+		if !ok || !IsNilConst(b.Y) || LoadedField(b.X) != rwBufF {
+			return false
+		}
+		return b.Op == token.NEQ && succ == 0 || b.Op == token.EQL && succ == 1
+	}
+
 	// ---------------------------------------------------------------- C16.1
 	c.Rule("C16.1", "the per-message flush follows every complete message", 2)
 	tw := types.NewPointer(p.MustNamed("transformingWriter"))
@@ -71,7 +89,7 @@ func runC16(c *Ctx) {
 					}
 				}
 			}
-			return true
+			return !bufferingEdge(from, succ)
 		}
 		okFlush, path := MustPassToExit(twFlush, call, callsTo(rwFlushMsg), IsReturn, edgeOK)
 		c.Check(okFlush, "C16.1", FuncName(twFlush), "flush-after-message-written", call.Pos(),
@@ -141,6 +159,9 @@ func runC16(c *Ctx) {
 				if !ok {
 					continue
 				}
+				if IsNilConst(b.Y) && LoadedField(b.X) == rwBufF && (b.Op == token.NEQ) == truth {
+					errPath = true // held-back response: nothing to flush yet, by design
+				}
 				if b.Op == token.LSS && truth && LoadedField(b.Y) == remF {
 					if lc, ok := b.X.(*ssa.Call); ok && CalleeName(lc) == "builtin len" {
 						waiting = true
@@ -169,7 +190,6 @@ func runC16(c *Ctx) {
 
 	// ---------------------------------------------------------------- C16.2
 	c.Rule("C16.2", "the per-message flush reaches the real Flusher; ending flushes; the flusher is mandatory and found in the right order", 5)
-	rwBufF := p.MustField("responseWriter", "buf")
 	isRealFlush := func(in ssa.Instruction) bool {
 		ci, ok := in.(ssa.CallInstruction)
 		if !ok {
@@ -213,10 +233,18 @@ func runC16(c *Ctx) {
 			"the per-message flush can return without invoking the underlying Flusher although nothing is being held back")
 	}
 	reportEnd := p.MethodOf(rwT, "reportEnd")
-	writeEnd := p.MethodOf(rwT, "writeEnd")
 	flushHeaders := p.MethodOf(rwT, "flushHeaders")
+	_, isEmitter, isEndEncode := endEmitters(p)
 	ForEachInstr(reportEnd, func(in ssa.Instruction) {
-		if callsTo(writeEnd, flushHeaders)(in) {
+		emits := isEndEncode(in) || callsTo(flushHeaders)(in)
+		if ci, ok := in.(ssa.CallInstruction); ok && !emits {
+			for _, cal := range p.CalleesAt(ci) {
+				if isEmitter[cal] && cal != reportEnd {
+					emits = true
+				}
+			}
+		}
+		if emits {
 			okF, path := MustPassToExit(reportEnd, in, isRealFlush, IsReturn, nil)
 			c.Check(okF, "C16.2", FuncName(reportEnd), "end-is-flushed", in.Pos(),
 				"after the end of the RPC was written the underlying Flusher is invoked on every path", "the end of the RPC can be written without a flush: "+witnessString(p, path))
